@@ -78,6 +78,29 @@ type scenario struct {
 	Phases []phase `json:"phases"`
 	// P&T
 	Templates []map[string]any `json:"templates,omitempty"`
+	// Provider: a provider-like actor puts a finalizer on every composed resource after each
+	// reconcile and releases terminating ones one step later, so garbage-collected resources
+	// linger in Terminating state (as managed resources do)
+	Provider bool `json:"provider,omitempty"`
+}
+
+// providerStep plays the provider: finalize what was terminating at the previous step, put a
+// finalizer on everything else.
+func providerStep(w *sim.World) {
+	p := w.Client("provider")
+	for _, gk := range []schema.GroupKind{{Group: "nop.ex.org", Kind: "NopA"}, {Group: "nop.ex.org", Kind: "NopB"}, {Group: "nop.ex.org", Kind: "NsThing"}} {
+		for _, o := range w.ListObjs(gk) {
+			u := &unstructured.Unstructured{Object: o}
+			if sim.Terminating(o) {
+				u.SetFinalizers(nil)
+			} else if len(u.GetFinalizers()) == 0 {
+				u.SetFinalizers([]string{"provider.ex.org/finalizer"})
+			} else {
+				continue
+			}
+			_ = p.Update(nil, u) //nolint:staticcheck // ctx unused
+		}
+	}
 }
 
 func (s *scenario) alwaysDesired() map[string]bool {
@@ -129,6 +152,7 @@ func baseScenarios() []scenario {
 		{Name: "pipe-grow", Mode: "pipeline", Steps: 1, Phases: []phase{{Desired: []resSpec{a}}, {Desired: []resSpec{a, b, c}}}},
 		{Name: "pipe-shrink", Mode: "pipeline", Steps: 1, Phases: []phase{{Desired: []resSpec{a, b, c}}, {Desired: []resSpec{a}}}},
 		{Name: "pipe-return", Mode: "pipeline", Steps: 1, Phases: []phase{{Desired: []resSpec{a, b}}, {Desired: []resSpec{a}}, {Desired: []resSpec{a, b}}}},
+		{Name: "pipe-return-provider", Mode: "pipeline", Steps: 1, Provider: true, Phases: []phase{{Desired: []resSpec{a, b}}, {Desired: []resSpec{a}}, {Desired: []resSpec{a, b}}}},
 		{Name: "pipe-2step-ns", Mode: "pipeline", Steps: 2, Phases: []phase{{Desired: []resSpec{a, nsd}}, {Desired: []resSpec{a, nsd, b}}}},
 		{Name: "pt-fixed2", Mode: "pt", Templates: []map[string]any{ptTemplate("a", "NopA", "1", optPatch), ptTemplate("b", "NopB", "2", nil)},
 			Phases: []phase{{}, {XREdit: map[string]any{"size": int64(7)}}}},
@@ -158,7 +182,7 @@ func randomScenario(c *kit.Ctx, i int) scenario {
 			}
 			ps = append(ps, phase{Desired: d})
 		}
-		return scenario{Name: fmt.Sprintf("rand-pipe-%d", i), Mode: "pipeline", Steps: 1 + r.IntN(2), Phases: ps}
+		return scenario{Name: fmt.Sprintf("rand-pipe-%d", i), Mode: "pipeline", Steps: 1 + r.IntN(2), Phases: ps, Provider: r.IntN(2) == 0}
 	}
 	nt := 1 + r.IntN(3)
 	var ts []map[string]any
@@ -179,7 +203,7 @@ func randomScenario(c *kit.Ctx, i int) scenario {
 	if r.IntN(2) == 0 {
 		ps = append(ps, phase{XREdit: map[string]any{"param": "p"}})
 	}
-	return scenario{Name: fmt.Sprintf("rand-pt-%d", i), Mode: "pt", Templates: ts, Phases: ps}
+	return scenario{Name: fmt.Sprintf("rand-pt-%d", i), Mode: "pt", Templates: ts, Phases: ps, Provider: r.IntN(2) == 0}
 }
 
 var xrKey = sim.Key{Group: "ex.org", Kind: "XThing", Name: "xr1"}
@@ -360,11 +384,14 @@ type execResult struct {
 
 // reconcileToQuiescence reconciles until one reconcile performs no effective write, then once
 // more to check stability (I4). Returns false if the bound was exceeded.
-func reconcileToQuiescence(env *xrk.XREnv, m *monitor, label string, trace *[]string, unsteady bool) bool {
+func reconcileToQuiescence(env *xrk.XREnv, m *monitor, label string, trace *[]string, unsteady, provider bool) bool {
 	w := env.W
 	if unsteady {
 		for i := 0; i < 3; i++ {
 			_, err, _ := env.Reconcile("xr1")
+			if provider {
+				providerStep(w)
+			}
 			*trace = append(*trace, fmt.Sprintf("%s (unsteady phase) reconcile %d: calls=%d err=%v", label, i, env.C.Calls(), err != nil))
 		}
 		return true
@@ -379,6 +406,15 @@ func reconcileToQuiescence(env *xrk.XREnv, m *monitor, label string, trace *[]st
 			}
 		}
 		*trace = append(*trace, fmt.Sprintf("%s reconcile %d: calls=%d changed=%d err=%v", label, i, env.C.Calls(), changed, err != nil))
+		if provider {
+			pf := w.LogLen()
+			providerStep(w)
+			for _, e := range w.Log(pf) {
+				if e.Changed {
+					changed++ // the provider moved something: the controller gets another turn
+				}
+			}
+		}
 		if changed == 0 && err == nil {
 			// I4: one more reconcile changes no object
 			from = w.LogLen()
@@ -425,6 +461,9 @@ func (r *runner) runScenario(sc scenario, scIdx int, quickFull bool) {
 				from := w.LogLen()
 				_, err, _ := env.Reconcile("xr1")
 				snaps[len(snaps)-1].calls = env.C.Calls()
+				if sc.Provider {
+					providerStep(w)
+				}
 				changed := false
 				for _, e := range w.Log(from) {
 					if e.Changed {
@@ -477,13 +516,29 @@ func (r *runner) runScenario(sc scenario, scIdx int, quickFull bool) {
 					}
 				}
 				trace = append(trace, fmt.Sprintf("faulty reconcile: err=%v crashed=%v hit=%v", err != nil, crashed, hit))
-				ok := reconcileToQuiescence(env, m, fmt.Sprintf("phase %d retry", sn.phase), &trace, sc.Phases[sn.phase].Unsteady)
+				if sc.Provider {
+					providerStep(w)
+				}
+				if c.Thorough() {
+					// fault SEQUENCES: a second fault in the reconcile that retries
+					fr := c.Rng("second-fault|"+caseName, 0)
+					if fr.IntN(2) == 0 {
+						env.C.Fault(fr.IntN(sn.calls+2), sim.AllFaults[fr.IntN(len(sim.AllFaults))])
+						_, _, _ = env.Reconcile("xr1")
+						env.C.ClearFaults()
+						c.Count("second_faults", 1)
+						if sc.Provider {
+							providerStep(w)
+						}
+					}
+				}
+				ok := reconcileToQuiescence(env, m, fmt.Sprintf("phase %d retry", sn.phase), &trace, sc.Phases[sn.phase].Unsteady, sc.Provider)
 				if !ok {
 					m.add("I4-no-quiescence", fmt.Sprintf("no quiescence within %d fault-free reconciles after the fault", maxQuiesce))
 				}
 				for p := sn.phase + 1; p < len(sc.Phases) && ok; p++ {
 					r.enterPhase(w, &sc, p)
-					if !reconcileToQuiescence(env, m, fmt.Sprintf("phase %d", p), &trace, sc.Phases[p].Unsteady) {
+					if !reconcileToQuiescence(env, m, fmt.Sprintf("phase %d", p), &trace, sc.Phases[p].Unsteady, sc.Provider) {
 						m.add("I4-no-quiescence", fmt.Sprintf("phase %d: no quiescence within %d reconciles", p, maxQuiesce))
 						break
 					}
@@ -559,7 +614,7 @@ func (r *runner) finishExec(sc *scenario, caseName string, m *monitor, witness f
 func main() {
 	c := kit.New("C01", "fault_enumeration")
 	c.Rule = "fixed scenario shapes (pipeline: fixed/grow/shrink/return/2-step+namespaced; P&T: fixed, required-patch-missing) plus seeded random shapes; for every reconcile of the fault-free run, EVERY API-call index x 6 outcomes (conflict, 500, timeout, crash-before, crash-after, applied-but-504), then fault-free retries to quiescence through all later phases; invariants I1 (live composed resource referenced), I2 (<=1 per name) checked by a post-write hook on every store state, I3 (one metadata.name per always-desired name), I4 (quiescence within 8 reconciles and fixed point). distinct = (scenario, reconcile, call index, outcome); non-trivial = the fault was reached and fell at/after the first effective write of its reconcile or was a crash. Composed-resource apply order follows Go map iteration in the code under test, so call index -> resource is not reproducible across processes; all indices are covered regardless."
-	c.Assumptions = []string{"sim implements the apiserver rules listed in DESIGN.md 2.2 (SSA through k8s managedfields library)", "functions are deterministic programs of (request, phase)", "one XR; composed kinds have no finalizers"}
+	c.Assumptions = []string{"sim implements the apiserver rules listed in DESIGN.md 2.2 (SSA through k8s managedfields library)", "functions are deterministic programs of (request, phase)", "one XR; in 'provider' scenarios a provider actor finalizes composed resources one step after they start terminating"}
 	c.Floor = 200
 
 	scs := baseScenarios()
